@@ -1551,6 +1551,16 @@ class C18(Check):
         if self.tier == "thorough" and not getattr(self, "_big_done", False):
             self._big_done = True
             self.big_tensors()
+        # the Python front end as a user of the layout: the affinity blocks it hands back (the statements after the dispatch of
+        # multitensor.pyx, run as Python with a numpy stand-in)
+        from . import pyxsim
+        try:
+            fe = pyxsim.search_epilogue(open(os.path.join(C.REPO, "python", "package", "multitensor.pyx")).read())
+        except Exception:
+            fe = None
+        self.cov["pyx_epilogue_simulated"] = fe is not None
+        for f in [x for x in (fe or []) if "affinity block" in x["what"]][:2]:
+            self.violate("python-affinity-layout", "after a run with %s: %s" % (f["case"], f["what"]), f)
         # where the initialiser puts the entries of a caller-supplied tensor (every call of a functor object, not only the first)
         init_functor_stage(self, "initial-tensor-entries-misplaced", ["f"])
         D = 6
